@@ -5,11 +5,14 @@ REGISTRY = {
     'C01': ('sim.props.c01', 'C01'),
     'C02': ('sim.props.c02', 'C02'),
     'C03': ('sim.props.c03', 'C03'),
+    'C04': ('sim.props.c04', 'C04'),
     'C06': ('sim.props.c06', 'C06'),
+    'C07': ('sim.props.c07', 'C07'),
     'C08': ('sim.props.c08', 'C08'),
     'C10': ('sim.props.c10', 'C10'),
     'C12': ('sim.props.c12', 'C12'),
     'C13': ('sim.props.c13', 'C13'),
+    'C14': ('sim.props.c14', 'C14'),
     'C15': ('sim.props.c15', 'C15'),
     'C16': ('sim.props.c16', 'C16'),
     'C17': ('sim.props.c17', 'C17'),
